@@ -113,8 +113,15 @@ def static_tags(spec: dict) -> t.Set[str]:
     roles: t.Dict[str, list] = {}
     for n, nd in spec['nodes'].items():
         rs = refs(nd)
-        names = [r[1] for r in rs]
-        if len(names) != len(set(names)):
+        # two references collapse into ONE graph edge only when both are direct edges into the consumer itself (Input /
+        # recurrent destination), or when they repeat inside one mark (two labels of a switch naming the same case).
+        # A case / candidate / switch node that the consumer ALSO names directly goes through a synthetic node: two
+        # distinct edges, a legitimate program.
+        direct = [r[1] for r in rs if r[0] in ('in', 'recdest')]
+        per_kw: t.Dict[str, list] = {}
+        for role, m, kw in rs:
+            per_kw.setdefault(kw, []).append(m)
+        if len(direct) != len(set(direct)) or any(len(v) != len(set(v)) for v in per_kw.values()):
             tags.add('build.duplicate-dependency')
         for role, m, kw in rs:
             roles.setdefault(m, []).append((role, n))
@@ -125,6 +132,15 @@ def static_tags(spec: dict) -> t.Set[str]:
         if 'case' in kinds and 'sw' in kinds:
             tags.add('switch.case-is-switch-node')
     return tags
+
+
+def same_consumer_twice(spec: dict) -> bool:
+    """Some consumer names one node in two of its references (e.g. as a switch case and as a direct Input)."""
+    for nd in spec['nodes'].values():
+        names = [r[1] for r in refs(nd)]
+        if len(names) != len(set(names)):
+            return True
+    return False
 
 
 def kinds_used(spec: dict) -> t.Set[str]:
